@@ -627,6 +627,8 @@ initialize_new_thread(struct lzma_stream_coder *coder,
 	thr->block_decoder = LZMA_NEXT_CODER_INIT;
 	thr->mem_filters = 0;
 
+	VERIF_EV("Create", coder, coder->threads_initialized, 0, 0, 0, 0);
+
 	if (mythread_create(&thr->thread_id, worker_decoder, thr))
 		goto error_thread;
 
